@@ -6,19 +6,19 @@ from . import oracles as O
 from . import small as SM
 
 CONFIG = {
-    'C01': dict(streams=[('td_class', 480), ('td_wf', 880), ('td_coarse', 320), ('fail_wf', 200), ('panic', 240), ('multi', 40)], keep='om'),
+    'C01': dict(xcheck=True, streams=[('td_class', 480), ('td_wf', 880), ('td_coarse', 320), ('fail_wf', 200), ('panic', 240), ('multi', 40)], keep='om'),
     'C02': dict(streams=[('td_exact', 880), ('td_wf', 480), ('td_mid', 160), ('panic', 240), ('fail_wf', 240)], keep='ov'),
     'C03': dict(streams=[('bu_class', 320), ('bu_wf', 720), ('mixed_wf', 320), ('newreq', 160), ('cutoff_newreq', 160), ('reported_products', 160), ('fail_bu', 200), ('mid_session', 160)], keep='ovm', extra='lossy'),
-    'C04': dict(streams=[('bu_class', 320), ('bu_wf', 960), ('mixed_wf', 160), ('newreq', 160), ('cutoff_newreq', 240), ('reported_products', 120), ('abort_bu', 240)], keep='ov'),
+    'C04': dict(xcheck=True, streams=[('bu_class', 320), ('bu_wf', 960), ('mixed_wf', 160), ('newreq', 160), ('cutoff_newreq', 240), ('reported_products', 120), ('abort_bu', 240)], keep='ov'),
     'C05': dict(streams=[('inj_hidden', 1200), ('siblings', 240), ('td_wf', 160), ('same_session', 80), ('chain_readers', 160), ('newreq', 240)], keep='om', extra='wabort'),
     'C06': dict(streams=[('inj_overlap', 1200), ('td_wf', 160), ('same_session', 80), ('newreq', 160)], keep='om', extra='wabort'),
     'C07': dict(streams=[('inj_cycle', 880), ('reorder_cycle', 240), ('cycle_query', 240), ('newreq', 160), ('mid_session', 240)], keep='ov'),
-    'C08': dict(streams=[('td_wf', 560), ('bu_wf', 320), ('multi', 80), ('panic', 240), ('abort_bu', 120), ('newreq', 160), ('same_abort', 80), ('fail_wf', 160)], keep='od'),
+    'C08': dict(xcheck=True, streams=[('td_wf', 560), ('bu_wf', 320), ('multi', 80), ('panic', 240), ('abort_bu', 120), ('newreq', 160), ('same_abort', 80), ('fail_wf', 160)], keep='od'),
     'C09': dict(streams=[('td_coarse', 880), ('bu_wf', 320), ('multi', 80), ('near_td', 300), ('near_bu', 200)], keep='dv', extra='stampsrc,lossy'),
     'C16': dict(streams=[('td_wf', 240), ('bu_wf', 240), ('mixed_wf', 120), ('newreq', 160), ('abort_bu', 200), ('panic', 160)], keep='oevdm', two_process=True, extra='fsclock'),
     'C17': dict(streams=[('td_wf', 480), ('bu_wf', 480), ('fail_wf', 240), ('panic', 160), ('failstamp', 160)], keep='v', extra='tracker'),
     'C18': dict(streams=[('fail_wf', 800), ('fail_bu', 500), ('fail_mixed', 300), ('fail_panic', 400)], keep='eov', extra='flaky'),
-    'C19': dict(streams=[('panic', 800), ('abort_bu', 160), ('inj_hidden', 200), ('inj_overlap', 200), ('inj_cycle', 200), ('same_abort', 120)], keep='od'),
+    'C19': dict(xcheck=True, streams=[('panic', 800), ('abort_bu', 160), ('inj_hidden', 200), ('inj_overlap', 200), ('inj_cycle', 200), ('same_abort', 120)], keep='od'),
     'C20': dict(streams=[('td_class', 320), ('td_wf', 480), ('bu_wf', 240), ('roles', 640), ('same_abort', 120), ('chain_readers', 200)], keep='o'),
 }
 THOROUGH_FACTOR = 12
@@ -190,6 +190,35 @@ def comparable(lines, keep):
     return out
 
 
+def extraction_crosscheck(exe_model, toks_list, work, k):
+    """Trusted-base reduction for the engine layer: for k of this run's histories the OCaml driver prints table, steps and the
+    observable projection of what the EXTRACTED model computed as Gallina terms; the kernel then checks by vm_compute that
+    Dsl.dsl_run_history (Build.run_history at the harness's checker tables -- the function the history theorems are about) yields
+    exactly that: session results, outputs, resource contents, consistent set, errors, the complete event stream, queue, and the
+    dependency graph with ranks, ordered adjacency and edge data."""
+    pick = [c for c in toks_list if len(c) <= 160]
+    step = max(1, len(pick) // (k * 2))
+    pick = pick[::step][:k * 2]
+    f = os.path.join(work, 'xc_cases.txt')
+    open(f, 'w').write('\n'.join(' '.join(c) for c in pick) + '\n')
+    rc, out, _ = C.sh([exe_model, 'pieraw', f], timeout=900)
+    lines = [l for l in out.split('\n') if l.startswith('X ') or l == 'SKIP']
+    if rc != 0 or len(lines) != len(pick):
+        return {'agree': False, 'cases': 0, 'log': 'driver pieraw failed: rc=%s, %d lines for %d cases\n%s' % (rc, len(lines), len(pick), out[-800:])}
+    terms = [l[2:].split(' @@ ') for l in lines if l.startswith('X ')][:k]
+    v = ['From Coq Require Import List NArith ZArith.', 'Import ListNotations.', 'From PieV Require Import Model.Dag Model.Build Model.Dsl.',
+         'Definition proj (x : list (list sres) * world) :=',
+         '  (fst x, outs (snd x), rstate (snd x), consistent (snd x), errs (snd x), trace (snd x), queue (snd x),',
+         '   map (fun p => (fst p, rank (snd p), kids (snd p), pars (snd p))) (infos (gr (snd x))), edata (gr (snd x))).']
+    for i, (tb, steps, exp) in enumerate(terms):
+        v.append('Example xc_%d : proj (dsl_run_history %s (N.to_nat 3000) init_world %s) = %s.' % (i, tb, steps, exp))
+        v.append('Proof. vm_compute. reflexivity. Qed.')
+    vf = os.path.join(work, 'XCheckPie.v')
+    open(vf, 'w').write('\n'.join(v) + '\n')
+    rc, out, dt = C.sh(['coqc', '-q', '-Q', os.path.join(C.COQ, 'theories'), 'PieV', vf], cwd=work, timeout=1500)
+    return {'agree': rc == 0, 'cases': len(terms), 'wall_s': round(dt, 2), 'log': out[-1500:] if rc != 0 else ''}
+
+
 def run(prop, tier, seed, replay=None):
     t0 = time.time()
     cfg = CONFIG[prop]
@@ -224,12 +253,24 @@ def run(prop, tier, seed, replay=None):
             for i in range(n):
                 prog, steps, meta = make_case(rng, stream, big=((tier != 'quick' and i % 10 == 0) or (tier == 'quick' and stream.startswith('inj_') and i % 4 == 0)))
                 cases.append((prog, steps, meta, P.case_tokens(prog, steps), stream))
+        if tier == 'quick' and C.escalation()[0] > 1:
+            # the working tree differs from the validated baseline: more draws per stream, AFTER the standard ones (same prefix)
+            rng2 = random.Random(seed * 15485863 + int(prop[1:]))
+            for stream, n in cfg['streams']:
+                for i in range(n * (C.escalation()[0] - 1)):
+                    prog, steps, meta = make_case(rng2, stream, big=(stream.startswith('inj_') and i % 4 == 0))
+                    cases.append((prog, steps, meta, P.case_tokens(prog, steps), stream))
     work = os.path.join(C.CACHE, 'run', '%s-%s-%d' % (prop, tier, os.getpid()))
     os.makedirs(work, exist_ok=True)
     toks_list = [c[3] for c in cases]
     if replay and cases[0][4].endswith('_probe'):
         toks_list = []
     impl, model, crashes = run_cases(exe_impl, exe_model, toks_list, work)
+    xc = None
+    if cfg.get('xcheck') and exe_model and not replay:
+        xc = extraction_crosscheck(exe_model, toks_list, work, 40 if tier == 'quick' else 300)
+        if not xc['agree']:
+            problems.append('extraction cross-check: evaluating dsl_run_history inside Coq (vm_compute) and running the extracted OCaml model disagree, or the check could not run:\n' + xc.get('log', ''))
     impl2 = None
     if cfg.get('two_process'):
         impl2, _, _ = run_cases(exe_impl, None, toks_list, work, tag='b', noise=True)   # second process: after an unrelated instance in the same thread
@@ -360,7 +401,7 @@ def run(prop, tier, seed, replay=None):
             if kv['opens_after'] != kv['opens_before']:
                 findings.append(('modified-before-abort', '%s: the resource was opened for writing (%s -> %s opens; a file would have been created or truncated) although the write was rejected' % (where, kv['opens_before'], kv['opens_after']), base)); break
     if has_extra(cfg, 'tracker') and (not replay or cases[0][4] == 'tracker_probe'):
-        tcases = [c[3] for c in cases] if replay else [SM.ALL_KINDS_CASE] + [SM.gen_tracker_case(rng) for _ in range(600 if tier == 'quick' else 20000)]
+        tcases = [c[3] for c in cases] if replay else [SM.ALL_KINDS_CASE] + [SM.gen_tracker_case(rng) for _ in range(C.quick_n(600, tier) if tier == 'quick' else 20000)]
         exe_probe, pout = C.build_harness('misc_probe')
         f = os.path.join(work, 'tracker.txt')
         open(f, 'w').write('\n'.join(' '.join(c) for c in tcases) + '\n')
@@ -432,6 +473,7 @@ def run(prop, tier, seed, replay=None):
         'checker_cmd': proof['checker_cmd'],
         'trusted_base': C.TRUSTED_BASE + ['axioms reported by Print Assumptions: ' + (', '.join(proof['axioms']) or 'none (closed under the global context)')] + (['coqchk -o (independent re-check of the compiled property file and its dependencies): ' + proof['coqchk']] if proof.get('coqchk') else []),
         'theorems': proof['theorems'],
+        'extraction_crosscheck': ({k: v for k, v in xc.items() if k != 'log'} if xc else None),
         'evaluations': len(cases),
         'distinct_nontrivial': len(nontrivial),
         'rule': 'generated DSL task programs + histories (streams: %s) run on the real Pie (pie_hist: outputs, full 23-kind event stream, store dump, '
